@@ -250,8 +250,9 @@ func (svc *service) stop() {
 	// Wait for all the goroutines to stop.
 	svc.wgStopped.Wait()
 
-	log.Debugf("(%s) Received %d bytes in %d messages", svc.cid(), svc.inStat.bytes, svc.inStat.msgs)
-	log.Debugf("(%s) Sent %d bytes in %d messages", svc.cid(), svc.outStat.bytes, svc.outStat.msgs)
+	// (other connections may still be delivering to this one and counting)
+	log.Debugf("(%s) Received %d bytes in %d messages", svc.cid(), atomic.LoadInt64(&svc.inStat.bytes), atomic.LoadInt64(&svc.inStat.msgs))
+	log.Debugf("(%s) Sent %d bytes in %d messages", svc.cid(), atomic.LoadInt64(&svc.outStat.bytes), atomic.LoadInt64(&svc.outStat.msgs))
 
 	// Unsubscribe from all the topics for this client, only for the server side though
 	if !svc.client && svc.sess != nil {
